@@ -4,6 +4,8 @@
 
 package csblob
 
+//@ macro dirOK(d *CodeDirectory) bool = d != nil && 1 <= d.HashFunc && d.HashFunc <= 19
+//@
 //@ func parseSuper
 //@   property C11
 //@   nopanic
@@ -29,6 +31,7 @@ package csblob
 //@   property C11
 //@   nopanic
 //@   ensures @directory_present_on_success ret1 == nil ==> ret0 != nil
+//@   ensures @only_linked_hash_functions ret1 == nil ==> dirOK(ret0)
 //@   fresh ret0
 //@   modifies nothing
 //@   allocbound 0 24 * len(blob) + 24
@@ -55,6 +58,8 @@ package csblob
 //@   on call (*pkcs7.SignedData).Verify(sd, ext, skip) ret (s, e): cmsOK = (e == nil)
 //@   on call checkCDHashes(_, _) ret (e): cdOK = (e == nil && cmsOK)
 //@   ensures @cms_signature_and_code_directory_hashes_verified ret1 == nil ==> cmsOK && cdOK
+//@   ensures @verified_blob_with_at_least_one_code_directory ret1 == nil ==> ret0 != nil && ret0.Blob != nil && len(ret0.Blob.Directories) >= 1 && \
+//@        forall(k, 0, len(ret0.Blob.Directories), dirOK(ret0.Blob.Directories[k])) && forall(k, 0, len(ret0.Blob.Unknowns), len(ret0.Blob.Unknowns[k]) >= 8)
 //@   ghost needDER bool = false
 //@   ghost needEnt bool = false
 //@   ghost needReq bool = false
@@ -67,19 +72,20 @@ package csblob
 //@        needReq = needReq && !(e == nil && sameslice(exp, dir.RequirementsHash) && sameslice(b, sig.RawRequirements)); \
 //@        needRep = needRep && !(e == nil && sameslice(exp, dir.RepSpecificHash) && sameslice(b, params.RepSpecific))
 //@   ensures @entitlements_requirements_and_rep_specific_data_compared_whenever_a_directory_binds_them ret1 == nil ==> !needDER && !needEnt && !needReq && !needRep
-//@   loop 0 sig "for _, dir := range sig.Directories" invariant sig != nil && sigG == sig && !cmsOK && !cdOK && forall(k, 0, len(pre(sig.Directories)), pre(sig.Directories)[k] != nil) && \
-//@        sameslice(sig.Directories, pre(sig.Directories)) && (computedHashes != nil) && !needDER && !needEnt && !needReq && !needRep
+//@   loop 0 sig "for _, dir := range sig.Directories" invariant sig != nil && sigG == sig && !cmsOK && !cdOK && forall(k, 0, len(pre(sig.Directories)), dirOK(pre(sig.Directories)[k])) && \
+//@        sameslice(sig.Directories, pre(sig.Directories)) && (computedHashes != nil) && \
+//@        forall(k, 0, len(sig.Unknowns), len(sig.Unknowns[k]) >= 8) && !needDER && !needEnt && !needReq && !needRep
 
 //@ func parseSignature
 //@   property C11 C02
 //@   nopanic
-//@   ensures @blob_and_its_directories_present_on_success ret1 == nil ==> ret0 != nil && forall(k, 0, len(ret0.Directories), ret0.Directories[k] != nil)
-//@   loop 0 sig "for _, item := range items" invariant sig != nil && forall(k, 0, len(sig.Directories), sig.Directories[k] != nil) && \
+//@   ensures @blob_and_its_directories_present_on_success ret1 == nil ==> ret0 != nil && forall(k, 0, len(ret0.Directories), dirOK(ret0.Directories[k]))
+//@   loop 0 sig "for _, item := range items" invariant sig != nil && forall(k, 0, len(sig.Directories), dirOK(sig.Directories[k])) && \
 //@        (sig.Entitlement == nil || len(sig.Entitlement) >= 8) && (sig.EntitlementDER == nil || len(sig.EntitlementDER) >= 8) && \
 //@        forall(k, 0, len(items), len(items[k].data) >= 8) && forall(k, 0, len(sig.Unknowns), len(sig.Unknowns[k]) >= 8)
 //@   ensures @embedded_blobs_hold_at_least_their_header ret1 == nil ==> (ret0.Entitlement == nil || len(ret0.Entitlement) >= 8) && \
 //@        (ret0.EntitlementDER == nil || len(ret0.EntitlementDER) >= 8) && forall(k, 0, len(ret0.Unknowns), len(ret0.Unknowns[k]) >= 8)
-//@   on call sort.Slice(_, _) ret (): assume atcall(forall(k, 0, len(sig.Directories), sig.Directories[k] != nil)) ==> forall(k, 0, len(sig.Directories), sig.Directories[k] != nil)
+//@   on call sort.Slice(_, _) ret (): assume atcall(forall(k, 0, len(sig.Directories), dirOK(sig.Directories[k]))) ==> forall(k, 0, len(sig.Directories), dirOK(sig.Directories[k]))
 
 //@ func hashFunc
 //@   property C11
@@ -102,8 +108,9 @@ package csblob
 //@   allocbound 0 16777216
 //@   ghost compared int = 0
 //@   on call crypto/hmac.Equal(a, b) ret (r): compared = compared + ite(r, 1, 0)
-//@   loop 0 sig "for i, expected := range dir.CodeHashes" invariant compared == rangeindex + 1 && dir != nil && len(page) >= 0 && pageSize >= 1 && len(page) <= pageSize && cap(page) == pageSize
+//@   loop 0 sig "for i, expected := range dir.CodeHashes" invariant compared == rangeindex + 1 && dir != nil && len(page) >= 0 && pageSize >= 1 && len(page) <= pageSize && cap(page) == pageSize && allocated(page)
 //@   ensures @every_hash_slot_compared_with_the_page_read ret0 == nil && dir.Header.PageSizeLog2 != 0 ==> compared == len(dir.CodeHashes)
+//@   modifies sink r
 //@
 //@ func (*SigBlob).Requirements
 //@   property C11
@@ -128,3 +135,9 @@ package csblob
 //@   nopanic
 //@   requires d != nil
 //@   modifies d.buf, d.err
+//@
+//@ func (*SigBlob).CodeSize
+//@   property C11
+//@   nopanic
+//@   requires s != nil && forall(k, 0, len(s.Directories), s.Directories[k] != nil)
+//@   modifies nothing
